@@ -13,8 +13,13 @@ CUSTOM_AUTH_ID = 9
 _CACHE: t.Dict[str, t.Any] = {}
 
 
-def classes() -> t.Dict[str, t.Any]:
-    """-> {"control": CustomControl, "filter": CustomFilter, "auth": CustomAuth}"""
+def classes(variant: str = "A") -> t.Dict[str, t.Any]:
+    """-> {"control": CustomControl, "filter": CustomFilter, "auth": CustomAuth}
+
+    variant "B" gives a second, different set of classes for the SAME control OID / filter id / auth id
+    (two sessions may register different implementations of the same type)."""
+    if variant == "B":
+        return _classes_b()
     if _CACHE:
         return _CACHE
     import sansldap
@@ -84,3 +89,52 @@ def classes() -> t.Dict[str, t.Any]:
 
     _CACHE.update(control=CustomControl, filter=CustomFilter, auth=CustomAuth)
     return _CACHE
+
+
+_CACHE_B: t.Dict[str, t.Any] = {}
+
+
+def _classes_b() -> t.Dict[str, t.Any]:
+    if _CACHE_B:
+        return _CACHE_B
+    A = classes("A")
+
+    @dataclasses.dataclass(frozen=True)
+    class CustomControlB(A["control"]):  # type: ignore[misc,valid-type]
+        @classmethod
+        def unpack(cls, control_type: str, critical: bool, value: t.Optional[bytes], options: t.Any) -> "CustomControlB":
+            size = struct.unpack(">I", (value or b""))[0]
+            return CustomControlB(critical=critical, size=size)
+
+        def to_abstract(self) -> t.Any:
+            return ("custom-control-B", self.critical, self.size)
+
+    @dataclasses.dataclass(frozen=True)
+    class CustomFilterB(A["filter"]):  # type: ignore[misc,valid-type]
+        @classmethod
+        def unpack(cls, reader: t.Any, options: t.Any) -> "CustomFilterB":
+            from sansldap import asn1
+
+            value = reader.read_octet_string(asn1.ASN1Tag(asn1.TagClass.CONTEXT_SPECIFIC, cls.filter_id, False)).decode("utf-8")
+            return CustomFilterB(value=value)
+
+        def to_abstract(self) -> t.Any:
+            return ("custom-filter-B", self.value)
+
+    @dataclasses.dataclass(frozen=True)
+    class CustomAuthB(A["auth"]):  # type: ignore[misc,valid-type]
+        @classmethod
+        def unpack(cls, reader: t.Any, options: t.Any) -> "CustomAuthB":
+            from sansldap import asn1
+
+            value = reader.read_octet_string(
+                tag=asn1.ASN1Tag(asn1.TagClass.CONTEXT_SPECIFIC, cls.auth_id, False), hint="CustomAuth.value"
+            ).decode(options.string_encoding)
+            username, _, password = value.partition(":")
+            return CustomAuthB(username=username, password=password)
+
+        def to_abstract(self) -> t.Any:
+            return ("custom-auth-B", self.username, self.password)
+
+    _CACHE_B.update(control=CustomControlB, filter=CustomFilterB, auth=CustomAuthB)
+    return _CACHE_B
